@@ -26,7 +26,20 @@ const (
 	kRemap   = "remap"   // Remap(C, ptr(Buf)+Off*page, Size, Dev)
 	kDist    = "dist"    // Distribute(C, ptr(Buf), size(Buf), Devs)
 	kProbe   = "probe"   // AllocateMemory(C, 1) on a device the monitor's accounting says is full
+	// page-migration preparation: the fake MMU sends one
+	// vm.PageMigrationReqToDriver for the pages listed in Migs (all of the
+	// process of context C, all hosted by the same GPU), the fake command
+	// processors acknowledge RDMA drain / shootdown / page copy / restarts, and
+	// the engine runs until the driver has answered the MMU.
+	kMigrate = "migrate"
 )
+
+// migPart: page Page of buffer Buf is requested by (migrates to) GPU Dev.
+type migPart struct {
+	Buf  int `json:"buf"`
+	Page int `json:"page"`
+	Dev  int `json:"dev"`
+}
 
 type op struct {
 	K    string `json:"k"`
@@ -39,7 +52,8 @@ type op struct {
 	Off  uint64 `json:"off,omitempty"`
 	// Tight (Remap onto a unified device only): the unified device has room for
 	// the range in total, but at least one member GPU on its own has not.
-	Tight bool `json:"tight,omitempty"`
+	Tight bool      `json:"tight,omitempty"`
+	Migs  []migPart `json:"migs,omitempty"`
 }
 
 type steer struct {
@@ -52,19 +66,23 @@ type steer struct {
 }
 
 type scenario struct {
-	Name     string      `json:"name"`
-	Log2Page uint64      `json:"log2_page"`
-	Buddy    bool        `json:"buddy,omitempty"`
-	GPUPages []int       `json:"gpu_pages"`
-	MaxProc  int         `json:"max_proc,omitempty"`
-	Steps    int         `json:"steps,omitempty"`
-	FreeMode string      `json:"free_mode,omitempty"` // lifo | fifo | random
-	Steer    steer       `json:"steer"`
-	Focus    string      `json:"focus,omitempty"`    // generator flavour: "" | unified | unified-small
-	Canon    bool        `json:"canon,omitempty"`    // member of the seed-independent battery (coverage rows "canon|...")
-	GenSeed  uint64      `json:"gen_seed,omitempty"` // 0: Ops is a fixed list
-	Ops      []op        `json:"ops"`
-	Engine   *engineCase `json:"engine,omitempty"`
+	Name     string `json:"name"`
+	Log2Page uint64 `json:"log2_page"`
+	Buddy    bool   `json:"buddy,omitempty"`
+	GPUPages []int  `json:"gpu_pages"`
+	MaxProc  int    `json:"max_proc,omitempty"`
+	Steps    int    `json:"steps,omitempty"`
+	FreeMode string `json:"free_mode,omitempty"` // lifo | fifo | random
+	Steer    steer  `json:"steer"`
+	Focus    string `json:"focus,omitempty"` // generator flavour: "" | unified | unified-small
+	Canon    bool   `json:"canon,omitempty"` // member of the seed-independent battery (coverage rows "canon|...")
+	// Mig: the driver is built with fake command processors and a fake MMU
+	// on a serial engine (drvkit Options.Migration) and the history contains
+	// page migrations.
+	Mig     bool        `json:"mig,omitempty"`
+	GenSeed uint64      `json:"gen_seed,omitempty"` // 0: Ops is a fixed list
+	Ops     []op        `json:"ops"`
+	Engine  *engineCase `json:"engine,omitempty"`
 }
 
 // ---------------------------------------------------------------------------
@@ -110,6 +128,11 @@ type pageSt struct {
 	req     []int  // device ids the last placing operation named (the page may record one of them, or the backing device)
 	classBy string // operation that set the class
 	target  string // kind of the device that operation named (coverage rows)
+	// unified: the page carries the Unified flag as far as the API tells
+	// (AllocateUnifiedMemory and migration set it, Remap/Distribute clear
+	// it); the MMU asks for the migration of unified pages only.
+	unified bool
+	hosts   []int // GPUs that have hosted the page (the MMU's "accessing GPUs"), current one last
 	paddr   uint64
 	seen    bool
 }
@@ -155,6 +178,7 @@ type world struct {
 
 	sawReuse     bool // a physical page returned by a free was handed out again
 	returned     map[uint64]bool
+	retMig       map[uint64]int // frames handed out by a migration and returned by a free, not seen again yet -> device
 	multiPgFree  bool
 	fullEpisodes int
 
@@ -172,12 +196,12 @@ func (w *world) alloc() string {
 func newWorld(rec vlib.Recorder, sc *scenario) *world {
 	w := &world{sc: sc, rec: rec, ps: uint64(1) << sc.Log2Page,
 		byPID: map[vm.PID][]int{}, phys: map[uint64]*physOwner{},
-		lastWriter: map[uint64]vm.PID{}, returned: map[uint64]bool{}}
+		lastWriter: map[uint64]vm.PID{}, returned: map[uint64]bool{}, retMig: map[uint64]int{}}
 	var props []driver.DeviceProperties
 	for i, p := range sc.GPUPages {
 		props = append(props, driver.DeviceProperties{CUCount: 4 + i, DRAMSize: uint64(p) * w.ps})
 	}
-	w.rig = drvkit.NewRig(drvkit.Options{Log2Page: sc.Log2Page, GPUs: props})
+	w.rig = drvkit.NewRig(drvkit.Options{Log2Page: sc.Log2Page, GPUs: props, Migration: sc.Mig})
 	// physical layout by construction: one reserved page, the CPU's 4 GiB,
 	// then each GPU's DRAM in registration order
 	// (internal.NewMemoryAllocator / RegisterDevice / Builder.createCPU).
@@ -261,7 +285,51 @@ func trimStack(s string) string {
 	return strings.Join(keep, " | ")
 }
 
+// opTargets: the devices whose memory the step asks for.
+func (w *world) opTargets(o op) []int {
+	var out []int
+	switch o.K {
+	case kAlloc, kProbe:
+		out = w.physOf(w.ctxs[o.C].cur)
+	case kAllocU:
+		out = []int{1}
+	case kRemap:
+		out = w.physOf(o.Dev)
+	case kDist:
+		for _, d := range o.Devs {
+			out = append(out, w.physOf(d)...)
+		}
+	case kMigrate:
+		for _, m := range o.Migs {
+			out = append(out, m.Dev)
+		}
+	}
+	return out
+}
+
 func (w *world) crash(o op, pv any, stack string) {
+	// a within-capacity request fails for lack of memory while frames that a
+	// migration had handed out, and a FreeMemory should have returned, have
+	// not been seen again on the device asked
+	if msg := fmt.Sprint(pv); strings.Contains(msg, "memory") || strings.Contains(msg, "index out of range") {
+		tg := w.opTargets(o)
+		if len(tg) > 0 && (o.K == kAlloc || o.K == kProbe) && w.devs[w.ctxs[o.C].cur].kind == devUnified {
+			tg = nil // which member was asked is not known
+		}
+		if o.K == kRemap && w.devs[o.Dev].kind == devUnified || o.K == kDist {
+			tg = nil
+		}
+		for _, d := range tg {
+			for pa, dev := range w.retMig {
+				if dev == d {
+					w.viol("free-after-migrate|frame-handed-out-by-the-migration-is-not-reusable|"+w.alloc(),
+						fmt.Sprintf("%s on device %d panicked (%v) although it is within capacity: frame 0x%x of that device, handed out by a page migration and returned by a later FreeMemory, has not become reusable", o.K, d, pv, pa),
+						map[string]any{"panic": msg, "stack": trimStack(stack), "frames_returned_after_migration_not_seen_again": len(w.retMig)})
+					return
+				}
+			}
+		}
+	}
 	w.viol(fmt.Sprintf("crash|%s|%s|%s", o.K, panicClass(pv), w.alloc()),
 		fmt.Sprintf("driver panicked on a valid, within-capacity %s: %v", o.K, pv),
 		map[string]any{"panic": fmt.Sprint(pv), "stack": trimStack(stack)})
@@ -472,6 +540,10 @@ func (w *world) lookup(b *bufSt, i int, fresh bool, by string) bool {
 	if w.returned[pg.PAddr] {
 		w.sawReuse = true
 		delete(w.returned, pg.PAddr)
+		if _, ok := w.retMig[pg.PAddr]; ok {
+			delete(w.retMig, pg.PAddr)
+			w.rec.Count("frames_from_a_migration_reused_after_free", 1)
+		}
 	}
 	p.paddr, p.seen = pg.PAddr, true
 	w.phys[pg.PAddr] = &physOwner{pid: b.pid, vaddr: p.vaddr, dev: dev}
@@ -647,6 +719,9 @@ func (w *world) precheck(o op) string {
 		} else if !w.canTake(o.Dev, n, true) {
 			return "target device (or one of its members) has not the room"
 		}
+	case kMigrate:
+		_, why := w.checkMigrate(o)
+		return why
 	case kDist:
 		b, why := bufOf()
 		if why != "" {
@@ -754,6 +829,9 @@ func (w *world) exec(o op) bool {
 	case kFree:
 		return w.execFree(o)
 
+	case kMigrate:
+		return w.execMigrate(o)
+
 	case kRemap:
 		b := w.bufs[o.Buf]
 		addr := b.ptr + o.Off*w.ps
@@ -778,6 +856,7 @@ func (w *world) exec(o op) bool {
 			w.rec.Count("multi_page_remaps", 1)
 		}
 		w.covTarget("remap", "target", o.Dev, n)
+		w.cov("remap|over-pages-placed-by=" + b.pages[o.Off].classBy)
 		w.cov("remap|target=" + w.kindName(o.Dev) + "|" + sizeClass(o.Size, w.ps))
 		if o.Tight {
 			w.cov("remap|target=" + w.kindName(o.Dev) + "|a-member-has-less-room-than-the-range")
@@ -787,6 +866,7 @@ func (w *world) exec(o op) bool {
 			p := b.pages[i]
 			old, had := p.paddr, p.seen
 			p.class, p.req, p.classBy, p.target = w.physOf(o.Dev), []int{o.Dev}, kRemap, w.kindName(o.Dev)
+			p.unified, p.hosts = false, nil
 			w.lastWriter[p.vaddr] = b.pid
 			if !w.lookup(b, i, true, kRemap) {
 				return false
@@ -825,6 +905,7 @@ func (w *world) exec(o op) bool {
 		}
 		w.rec.Distinct("distribute_width", fmt.Sprint(len(o.Devs)))
 		w.cov("dist|list|" + listShape(w, o.Devs))
+		w.cov("dist|over-pages-placed-by=" + b.pages[0].classBy)
 		w.cov(fmt.Sprintf("dist|list-length=%d", len(o.Devs)))
 		if len(ret) != len(o.Devs) {
 			w.viol("distribute-return-length", fmt.Sprintf("Distribute over %d GPUs returned %d counts", len(o.Devs), len(ret)), nil)
@@ -865,6 +946,7 @@ func (w *world) exec(o op) bool {
 				p := b.pages[i]
 				old, had := p.paddr, p.seen
 				p.class, p.req, p.classBy, p.target = w.physOf(g), []int{g}, kDist, w.kindName(g)
+				p.unified, p.hosts = false, nil
 				w.lastWriter[p.vaddr] = b.pid
 				if !w.lookup(b, i, true, kDist) {
 					return false
@@ -948,7 +1030,7 @@ func (w *world) execAlloc(o op) bool {
 		}
 	}
 	for i := 0; i < n; i++ {
-		b.pages = append(b.pages, &pageSt{vaddr: b.ptr + uint64(i)*w.ps, class: class, req: []int{tgt}, classBy: o.K, target: w.kindName(tgt)})
+		b.pages = append(b.pages, &pageSt{vaddr: b.ptr + uint64(i)*w.ps, class: class, req: []int{tgt}, classBy: o.K, target: w.kindName(tgt), unified: o.K == kAllocU})
 	}
 	w.bufs = append(w.bufs, b)
 	w.byPID[c.pid] = append(w.byPID[c.pid], b.serial)
@@ -963,6 +1045,9 @@ func (w *world) execAlloc(o op) bool {
 			return false
 		}
 		fresh = append(fresh, b.pages[i].paddr)
+		if o.K == kAllocU {
+			b.pages[i].hosts = []int{1}
+		}
 	}
 	w.setBlocks(fresh, false)
 	return w.walk(o.K)
@@ -1030,6 +1115,11 @@ func (w *world) execFree(o op) bool {
 	b.live = false
 	for _, p := range b.pages {
 		w.returned[p.paddr] = true
+		if p.classBy == kMigrate {
+			if o := w.phys[p.paddr]; o != nil {
+				w.retMig[p.paddr] = o.dev
+			}
+		}
 		w.releasePage(p.paddr)
 	}
 	return w.walk(o.K)
